@@ -145,10 +145,21 @@ def _unit(args):
                             "%s: curve p=%d k=%d P=%s%s expected %s got %s" % (nm, p, k, a, la, want, got),
                             {"curve": ck, "op": "mul", "P": a, "k": k, "lift": la, "expected": want, "got": got})
                 classes.add((ck, "mul", kc, "inf" if not a else "pt", _lc(la)))
-        if idx == 2:   # the generator itself: fixed-base table
+        if idx == 2:   # the generator object itself (a Point subclass): negation, subtraction, fixed-base table
+            for nm, kk, f, want in (("-G", "C02|neg|operand=generator_object", lambda: -g, negs[1]),
+                                    ("G-G", "C02|sub|rhs=generator_object", lambda: g - g, []),
+                                    ("2G-G", "C02|sub|rhs=generator_object", lambda: g.add(g, g) - g, pts[1]),
+                                    ("G+G", "C02|add|generator_object", lambda: g + g, T["add"][2]["sums"][1]),
+                                    ("G-2G", "C02|sub|lhs=generator_object", lambda: g - g.add(g, g), negs[1])):
+                got = drv.call(f, p)
+                cnt += 1
+                if got != want:
+                    bad("%s|got=%s" % (kk, got if isinstance(got, str) else "wrong"),
+                        "%s with G the Generator object itself: curve p=%d expected %s got %s" % (nm, p, want, got),
+                        {"curve": ck, "op": nm, "expected": want, "got": got})
             for t, k in enumerate(ks):
                 want = row["prods"][t]
-                for nm, f in (("raw_mul", lambda: g.raw_mul(k)), ("multiply(G)", lambda: g.multiply(g, k))):
+                for nm, f in (("raw_mul", lambda: g.raw_mul(k)), ("multiply|P=generator_object", lambda: g.multiply(g, k))):
                     got = drv.call(f, p)
                     cnt += 1
                     if got != want:
@@ -164,6 +175,8 @@ def _unit(args):
             if gb._blinding_factor != idx:
                 raise MachineryError("could not inject blinding factor %d (got %d)" % (idx, gb._blinding_factor))
             for t, k in enumerate(row["ks"]):
+                if lift and (t + idx) % 5:
+                    continue         # the other entropy lifts: every 5th scalar (the factor is the same, see the check above)
                 want = row["prods"][t]
                 if want != grow["prods"][t]:
                     raise MachineryError("spec tables disagree: blinded and plain generator multiple")
@@ -265,13 +278,12 @@ B1_PROD = int.from_bytes(hashlib.sha256(b"vf/C02/b1").digest(), "big")
 B2_PROD = (1 << 256) - 0x1000003D1 - 12345     # just below secp256k1's p, above both group orders
 
 
-def _classify_step(a, regs_before_proj):
+def _classify_step(a, got, label):
     op = a["op"]
-    if op == "neg":
-        return "C02|neg|operand=%s" % ("inf" if not regs_before_proj[a["i"]] else "point")
-    if op == "sub":
-        return "C02|sub|rhs=%s" % ("inf" if not regs_before_proj[a["j"]] else "point")
-    return "C02|regs|op=%s" % op
+    if isinstance(got, str) and got.startswith("exc:") and "@" in got and op in ("neg", "sub"):
+        exc, oc = got.split("@")
+        return ("C02|neg|operand=%s|got=%s" if op == "neg" else "C02|sub|rhs=%s|got=%s") % (oc, exc)
+    return "C02|regs|op=%s|got=%s|%s" % (op, got if isinstance(got, str) else "wrong", label)
 
 
 def _check_behaviours(ctx, behs, outs, expected, label, nregs):
@@ -289,10 +301,7 @@ def _check_behaviours(ctx, behs, outs, expected, label, nregs):
                 continue
             want = expected[bi][si]
             if got != want:
-                key = _classify_step(a, regs) + "|got=%s" % (got if isinstance(got, str) and got.startswith("exc:") else "wrong")
-                if not key.startswith("C02|neg|operand=inf") and not key.startswith("C02|sub|rhs=inf"):
-                    key += "|" + label
-                ctx.fail(key, "register machine on %s: step %d %s expected %s got %s" % (label, si, a, want, got),
+                ctx.fail(_classify_step(a, got, label), "register machine on %s: step %d %s expected %s got %s" % (label, si, a, want, got),
                          {"backend": label, "behaviour": acts[:si + 1], "expected": want, "got": got})
             regs[a["dst"]] = want
     return nsteps
@@ -415,7 +424,9 @@ def _record_traces(ck, seed, count, nev, nregs=5):
             if not isinstance(pr, list):
                 rec["res"] = [-1, -1]
                 rec["exc"] = pr
-                rec["operand_inf"] = (R[i][0] is None) if op == "neg" else (R[j][0] is None) if op == "sub" else False
+                rec["operand"] = drv.operand_class(R[i]) if op == "neg" else drv.operand_class(R[j]) if op == "sub" else ""
+                if len(ev) >= 3:
+                    traces.append(list(ev))      # the calls before the failing one form a trace of their own
                 ev.append(rec)
                 break       # nothing after a failed call can be attributed
             rec["res"] = pr
@@ -440,6 +451,17 @@ def _validate(ctx, ck, traces):
 
 
 # ----------------------------------------------------------------------------- run
+
+def _count_sim(ctx, r):
+    """tlc -simulate reports 'The number of states generated: N' (no distinct-state count)"""
+    import re
+    for line in r.raw_tail:
+        m = re.match(r"The number of states generated: (\d+)", line)
+        if m:
+            ctx.states += int(m.group(1))
+            ctx.transitions += int(m.group(1))
+            ctx.tlc_runs[-1]["simulated_states"] = int(m.group(1))
+
 
 def _stage(ctx, name):
     only = getattr(ctx, "only", None)
@@ -514,6 +536,7 @@ def run(ctx):
         # 4a. toy curve, Concrete: expected coordinates come from TLC
         nsim = 40 if q else 400
         r = ctx.tlc("ECRegs", "Sim_ECRegs_p83", workers=4, simulate="num=%d" % nsim, depth=40, seed=ctx.seed + 1, timeout=1200)
+        _count_sim(ctx, r)
         behs = [x["acts"] for x in r.records if x.get("k") == "beh"]
         if len(behs) < nsim:
             raise MachineryError("simulation printed %d behaviours" % len(behs))
@@ -530,6 +553,7 @@ def run(ctx):
         # 4b. production curves, symbolic
         nsim = 3 if q else 60
         r = ctx.tlc("ECRegs", "Sim_ECRegs", workers=4, simulate="num=%d" % nsim, depth=40, seed=ctx.seed + 2, timeout=1200)
+        _count_sim(ctx, r)
         behs = [x["acts"] for x in r.records if x.get("k") == "beh"]
         ctx.sample({"register_behaviour": behs[0][:5]})
         _production(ctx, behs, 4)
@@ -549,8 +573,8 @@ def run(ctx):
                 ctx.sample({"trace": {"curve": ck, "events": traces[0][:4]}})
             for i in rej:
                 last = traces[i][-1]
-                if "exc" in last and last["op"] in ("neg", "sub") and last["operand_inf"]:
-                    key = ("C02|neg|operand=inf|got=%s" if last["op"] == "neg" else "C02|sub|rhs=inf|got=%s") % last["exc"]
+                if "exc" in last and last["op"] in ("neg", "sub"):
+                    key = ("C02|neg|operand=%s|got=%s" if last["op"] == "neg" else "C02|sub|rhs=%s|got=%s") % (last["operand"], last["exc"])
                 elif "exc" in last:
                     key = "C02|trace|op=%s|got=%s" % (last["op"], last["exc"])
                 else:
